@@ -105,11 +105,15 @@ func (g *treeGen) scalar() *node {
 
 // root builds a container (a scalar root is covered by the exhaustive box).
 func (g *treeGen) root(depth int) *node {
-	for {
-		if n := g.tree(depth); n.container() {
+	if depth < 1 {
+		depth = 1
+	}
+	for i := 0; i < 100; i++ {
+		if n := g.tree(depth); n.container() && !n.g {
 			return n
 		}
 	}
+	return &node{k: 'a', kids: []*node{g.scalar()}}
 }
 
 func (g *treeGen) tree(depth int) *node {
